@@ -274,10 +274,13 @@ func checkProperty(p *Program, prop, tier string, timeoutS, workers int, start t
 			results = append(results, p.verifyLemma(l))
 		}
 	}
+	if prop == "C20" {
+		results = append(results, p.structObligations())
+	}
 	// cone: every callee contract used by a proof is itself verified as part of this property
 	done := map[string]bool{}
 	for _, r := range results {
-		if r.Contract.Kind == "func" {
+		if r.Contract != nil && r.Contract.Kind == "func" {
 			done[r.Contract.Func] = true
 		}
 	}
